@@ -233,70 +233,58 @@ def rule_owner_writes_only(ctx, rid, rr):
 
 # ------------------------------------------------------------------------------------------------ T4 / W3
 def rule_every_stale_entry_rebuilt(ctx, rid, rr, rid_required=None):
+    """T4 / W3, decided by interpreting the registry application over a symbolic plan with three registered entries
+    (A: out-of-date call, B: up-to-date call, S: out-of-date source) - independent of how the loop over the entries is
+    written: every entry is transformed (one read node each), the out-of-date ones and only they get a write node /
+    barrier, exactly those are handed to pruning as required, and the stored output is redirected to its read node."""
+    from .rewriterules import World
     m = ctx.model
     ap = rr.apply
-    mod = ap.module
     rid_required = rid_required or rid
-    loops = [n for n in ap.own_nodes() if isinstance(n, ast.For) and any(
-        isinstance(c, ast.Call) and c in ap.own_calls() and rr.rewrite in m.callee_funcs(ap, c) for c in ast.walk(n))]
-    if len(loops) != 1:
-        raise AnalysisError("T4: loop applying the registry entries not found")
-    lp = loops[0]
-    regp = [p for p in ap.params if "registry" in p][0]
-    ok = norm(lp.iter) == f"{regp}.mapping.items()"
-    ctx.ob(rid, f"{ap.short}/all-entries", ok, loc(ap, lp), "the loop ranges over every registry entry" if ok else
-           "the transformation does not range over all registry entries", head(lp))
-    skip = [n for n in ast.walk(lp) if isinstance(n, (ast.Continue, ast.Break))]
-    ctx.ob(rid, f"{ap.short}/no-skip", not skip, loc(ap, lp), "no continue/break: every entry is transformed" if not skip else
-           "entries can be skipped", head(lp))
-    call = [c for c in ast.walk(lp) if isinstance(c, ast.Call) and c in ap.own_calls() and rr.rewrite in m.callee_funcs(ap, c)][0]
-    # is_stale is membership in the set returned by the stale check
-    sa = arg(call, None, "is_stale")
-    stale_sets = [nm for nm, bs in ap.bindings.items() for k, e, _p in bs if k == "assign" and isinstance(e, ast.Call) and rr.stale in m.callee_funcs(ap, e)]
-    ok = False
-    if isinstance(sa, ast.Name):
-        b = [b for b in ap.bindings.get(sa.id, []) if b[0] == "assign"]
-        ok = len(b) == 1 and stale_sets and norm(b[0][1]) == f"{norm(lp.target.elts[0])} in {stale_sets[0]}"
-    ctx.ob(rid, f"{ap.short}/is-stale", ok, loc(ap, call), "is_stale = membership in the stale set" if ok else
-           "is_stale is not `node in <stale set>`", norm(call)[:120])
-    # every non-None write node is required
-    st = stmt_of(mod, call)
-    wname = rname = None
-    if isinstance(st, ast.Assign) and isinstance(st.targets[0], ast.Tuple) and len(st.targets[0].elts) == 2:
-        wname, rname = (norm(x) for x in st.targets[0].elts)
-    adds = [c for c in ast.walk(lp) if isinstance(c, ast.Call) and isinstance(c.func, ast.Attribute) and c.func.attr == "add"]
-    req_sets = {norm(c.func.value) for c in adds}
-    ok = False
-    for c in adds:
-        if c.args and norm(c.args[0]) == wname:
-            conds = E.path_condition(mod, stmt_of(mod, c), lp)
-            ok = len(conds) == 1 and E.cond_set(conds, wname)
-    ctx.ob(rid, f"{ap.short}/write-nodes-required", ok, loc(ap, lp), "every write node is added to the required set" if ok else
-           "a write node may not be required: a stale value is not rebuilt", head(lp))
-    # nothing else enters the required set (W3)
-    for c in adds:
-        okc = c.args and norm(c.args[0]) == wname
-        ctx.ob(rid_required, f"{ap.short}/only-write-nodes-required", bool(okc), loc(ap, c),
-               "only write nodes are required" if okc else
-               f"`{norm(c.args[0]) if c.args else ''}` is added to the required set: reads/calls happen although nothing is out of date", norm(c))
-    # the required set + redirected output are what is pruned against
-    prune = m.one_func("prune_plan", "PRUNE")
-    pcs = [c for c in ap.own_calls() if prune in m.callee_funcs(ap, c)]
-    for c in pcs:
-        rq = arg(c, None, "required_nodes")
-        ok = rq is not None and norm(rq) in req_sets
-        ctx.ob(rid, f"{ap.short}/prune-required", ok, loc(ap, c), "pruning keeps the required set" if ok else
-               "prune_plan is not given the required set", norm(c))
-        if rq is not None and isinstance(rq, ast.Name):
-            b = [b for b in ap.bindings.get(rq.id, []) if b[0] == "assign"]
-            okb = len(b) == 1 and norm(b[0][1]) == "set()"
-            ctx.ob(rid_required, f"{ap.short}/required-starts-empty", okb, loc(ap, c), "required set starts empty" if okb else "required set is pre-populated")
-    # read_node_lookup[node] = read_node for every entry
-    stores = [n for n in lp.body if isinstance(n, ast.Assign) and isinstance(n.targets[0], ast.Subscript) and norm(n.value) == rname
-              and norm(n.targets[0].slice) == norm(lp.target.elts[0])]
-    ctx.ob(rid, f"{ap.short}/read-node-recorded", len(stores) == 1, loc(ap, lp), "read node recorded for every entry (unconditionally)"
-           if len(stores) == 1 else "read node is not recorded unconditionally for every entry")
-    return (stores[0].targets[0].value.id if stores else None)
+
+    def build():
+        w = World(m, rr)
+        A, B, S = w.call("A"), w.call("B"), w.call("S")
+        P, O = w.call("P"), w.call("O")
+        w.edge(P, A, "Pos", 0)
+        w.edge(A, B, "Pos", 0)
+        w.edge(P, S, "Dep")
+        w.edge(B, O, "Pos", 0)
+        w.edge(S, O, "Pos", 1)
+        w.register(A, False)
+        w.register(B, False)
+        w.register(S, True)
+        return w, A, B, S, O
+    w, A, B, S, O = build()
+    rec = w.apply({A, S}, A)
+    roles_required = sorted(w.role(n) for n in rec.get("required", ()))
+    reads = {x: len(w.find(f"R[{x}]")) for x in ("A", "B", "S")}
+    ok = all(v == 1 for v in reads.values())
+    ctx.ob(rid, f"{ap.short}/all-entries", ok, loc(ap), "evaluated on three registered entries: each one got exactly one read node" if ok else
+           f"evaluated on three registered entries (A stale, B fresh, S stale source): read nodes per entry = {reads}: not every entry is transformed")
+    writes = {x: len(w.find(f"W[{x}]")) for x in ("A", "B")}
+    okw = writes == {"A": 1, "B": 0}
+    ctx.ob(rid, f"{ap.short}/is-stale", okw, loc(ap), "a write node exactly for the entry the stale check reported" if okw else
+           f"write nodes per call entry = {writes} although exactly A was reported out of date: is_stale is not `node in <stale set>`")
+    okr = roles_required == ["B#", "W[A]"]
+    ctx.ob(rid, f"{ap.short}/write-nodes-required", "W[A]" in roles_required and "B#" in roles_required, loc(ap),
+           "every write node (and source barrier) is handed to pruning as required" if "W[A]" in roles_required and "B#" in roles_required else
+           f"a write node may not be required: a stale value is not rebuilt (required = {roles_required})")
+    ctx.ob(rid_required, f"{ap.short}/only-write-nodes-required", okr or not set(roles_required) - {"B#", "W[A]"}, loc(ap),
+           "only write nodes are required" if not set(roles_required) - {"B#", "W[A]"} else
+           f"{sorted(set(roles_required) - {'B#', 'W[A]'})} is added to the required set: reads/calls happen although nothing is out of date")
+    okp = "required" in rec
+    ctx.ob(rid, f"{ap.short}/prune-required", okp, loc(ap), "pruning keeps the required set" if okp else "prune_plan is not given the required set")
+    oko = w.role(rec.get("prune_output")) == "R[A]" and w.role(rec.get("ret_output")) == "R[A]"
+    ctx.ob(rid, f"{ap.short}/read-node-recorded", oko, loc(ap), "a stored output is redirected to its read node (for pruning and for the caller)" if oko else
+           f"a stored output is not redirected to its read node: pruning keeps {w.role(rec.get('prune_output'))}, the caller gets {w.role(rec.get('ret_output'))}")
+    # nothing out of date, no output: nothing is required (a repeated run does nothing)
+    w2, A2, B2, S2, O2 = build()
+    rec2 = w2.apply(set(), None)
+    r2 = sorted(w2.role(n) for n in rec2.get("required", ()))
+    ctx.ob(rid_required, f"{ap.short}/required-starts-empty", not r2, loc(ap), "with nothing out of date and no output the required set is empty" if not r2 else
+           f"with nothing out of date and no output {r2} is still required")
+    return None
 
 
 # ------------------------------------------------------------------------------------------------ T5
